@@ -274,6 +274,9 @@ func wireCase(rep *Report, s *glue.Subject, d MD, idx int) {
 			rep.Violate(prop, "wire/remarshal-fails", tn, fmt.Sprintf("Marshal of decoded message: err=%v %s", merr, pmsg), rc)
 		} else if !bytes.Equal(re, want) {
 			rep.Violate(prop, "wire/remarshal-differs", tn, "re-encoding of the decoded message differs from the reference: "+firstDiff(re, want), rc)
+			if lv > 0 {
+				rep.Violate("C14", "wire/remarshal-differs", tn, "re-encoding of a message holding unknown fields differs from known fields followed by the unknown bytes: "+firstDiff(re, want), rc)
+			}
 		} else if len(specRes.Unk) > 0 && !bytes.HasSuffix(re, specRes.Unk) {
 			rep.Violate("C14", "wire/remarshal-unknown-suffix", tn, "re-encoding does not end with the unknown bytes", rc)
 		}
